@@ -5,6 +5,7 @@ package decoder
 import (
 	"math/bits"
 
+	"github.com/makiuchi-d/gozxing/common/reedsolomon"
 	zv "github.com/makiuchi-d/gozxing/zzverif"
 )
 
@@ -65,4 +66,37 @@ func VerifC05Version(ver int) {
 	}
 	zv.Assert(VERSION_DECODE_INFO[ver-7] == w, "version table entry differs from the BCH recomputation")
 	zv.Reach("version")
+}
+
+// VerifC05Correct: the real (*Decoder).correctErrors on a block of nData data + nEC parity
+// codewords (parity from the real Reed-Solomon encoder on a fixed data pattern) in which the codeword
+// at position pos carries an error of free non-zero magnitude and, when pos2 >= 0, a second codeword
+// another free one: every data codeword must come back restored.
+func VerifC05Correct(nData, nEC, pos, pos2 int) {
+	words := make([]int, nData+nEC)
+	for i := 0; i < nData; i++ {
+		words[i] = (i*37 + 11) & 0xff
+	}
+	err := reedsolomon.NewReedSolomonEncoder(reedsolomon.GenericGF_QR_CODE_FIELD_256).Encode(words, nEC)
+	zv.Assert(err == nil, "encode")
+	cw := make([]byte, len(words))
+	for i, w := range words {
+		cw[i] = byte(w)
+	}
+	e1 := zv.Byte()
+	zv.Assume(e1 != 0)
+	cw[pos] ^= e1
+	if pos2 >= 0 {
+		e2 := zv.Byte()
+		zv.Assume(e2 != 0)
+		cw[pos2] ^= e2
+	}
+	e := NewDecoder().correctErrors(cw, nData)
+	zv.Assert(e == nil, "errors within the correction capacity must be corrected")
+	ok := true
+	for i := 0; i < nData; i++ {
+		ok = zv.And(ok, cw[i] == byte(words[i]))
+	}
+	zv.Assert(ok, "every data codeword is restored")
+	zv.Reach("c05correct")
 }
